@@ -55,13 +55,17 @@ PROPS["C06"] = dict(
     assumptions=[
         "the allocator is reached through the verif hook wasp.VerifNewMIDPool (same constructor the writer uses)",
         "'exhaustion' is any return value outside [min,max]",
-        "ids on the wire (writer level) are checked under C03",
+        "writer level: the C03 scripts (package c03) run here too: ids on the wire are non-zero and pairwise distinct among open exchanges, all ids free again at the end",
     ],
     runs=[
         dict(name="regress", pkg="c06", run="TestRegress"),
         dict(name="enum", pkg="c06", run="TestEnum", shards=dict(quick=4, thorough=16), timeout=dict(quick=300, thorough=1800)),
         dict(name="random", pkg="c06", run="TestRandom", checks=dict(quick=16000, thorough=200000),
              shards=dict(quick=6, thorough=16), timeout=dict(quick=300, thorough=1800)),
+        # writer level (the property's third observation point: ids of PUBLISH packets written to subscribers):
+        # the C03 scripts check that ids on the wire are non-zero and distinct among open exchanges and that
+        # every id 1..65535 is free again at the end
+        dict(name="writer", pkg="c03", run="TestRandom", checks=dict(quick=240, thorough=3000), shards=16, timeout=dict(quick=400, thorough=2400), shrinktime="60s"),
     ],
 )
 
